@@ -5,7 +5,7 @@ thorough-tier sensitivity replay (mutants/seeded.mut)."""
 import json, os, shutil, sys, glob
 prop, n, slug, caught = sys.argv[1:5]
 note = sys.argv[5] if len(sys.argv) > 5 else ""
-src = f"/tmp/wt/{prop}.out/{n}"
+src = os.environ.get("SEED_SRC") or f"/tmp/wt/{prop}.out/{n}"
 dst = f"/verif/seeded/{prop}-{slug}"
 os.makedirs(dst, exist_ok=True)
 shutil.copy(f"{src}/patch.diff", f"{dst}/patch.diff")
